@@ -94,7 +94,17 @@ func (u *Unit) callExternal(call *ast.CallExpr, f *types.Func, recv *Val, args [
 	if res, ok := u.extSpecial(call, key, f, recv, args, st); ok {
 		return res
 	}
-	return u.callExternalDefault(call, key, f, recv, args, st)
+	res := u.callExternalDefault(call, key, f, recv, args, st)
+	if extImpure[key] && !u.inSpec {
+		u.bumpEpoch(st)
+	}
+	return res
+}
+
+// external accessors whose value depends on state changed by impure external calls
+var extEpoch = map[string]bool{
+	"bufio.Scanner.Text": true, "bufio.Scanner.Bytes": true, "bufio.Scanner.Err": true,
+	"flag.FlagSet.Args": true, "flag.FlagSet.NArg": true, "flag.FlagSet.Arg": true,
 }
 
 func constantString(v constant.Value) string {
@@ -165,6 +175,11 @@ func (u *Unit) callExternalDefault(call *ast.CallExpr, key string, f *types.Func
 		var v Val
 		if extImpure[key] {
 			v = Val{T: u.reg.fresh("ext_"+f.Name(), srt), S: srt, GT: t}
+		} else if extEpoch[key] {
+			// a reader of external mutable state: deterministic between two impure external calls
+			name := fmt.Sprintf("ext_%s_%d", sanitize(key), i) + sortSuffix(append(append([]string{}, ss...), "Int"))
+			u.reg.declare(name, append(append([]string{}, ss...), "Int"), srt)
+			v = Val{T: app(name, append(append([]string{}, as...), st.epoch)...), S: srt, GT: t}
 		} else {
 			name := fmt.Sprintf("ext_%s_%d", sanitize(key), i)
 			// overloads by argument sorts (generic or variadic functions)
@@ -305,6 +320,8 @@ func (u *Unit) extSpecial(call *ast.CallExpr, key string, f *types.Func, recv *V
 		if !u.inSpec {
 			r := res[0]
 			st.assume("(>= (len_" + r.S + " " + r.T + ") 0)")
+			// every field is a non-empty substring of the argument
+			st.assume(fmt.Sprintf("(forall ((j Int)) (! (=> (and (<= 0 j) (< j (len_%s %s))) (and (str.contains %s (select (arr_%s %s) j)) (> (str.len (select (arr_%s %s) j)) 0))) :pattern ((select (arr_%s %s) j))))", r.S, r.T, args[0].T, r.S, r.T, r.S, r.T, r.S, r.T))
 		}
 		return res, true
 	case "strings.Repeat":
